@@ -569,6 +569,9 @@ func (s *PathState) addAtom(a Atom) bool {
 		}
 	}
 	s.Atoms = append(s.Atoms, a)
+	if !s.deriveAtoms(a) {
+		return false
+	}
 	return s.propagateBool()
 }
 
